@@ -105,6 +105,12 @@ func (v *StructSchema) Pick(picks ...any) *StructSchema {
 			}
 		}
 	}
+	// a name the schema has no field for selects nothing (it used to be kept as a nil field, which made every execution of the new schema panic)
+	for k, s := range new.schema {
+		if s == nil {
+			delete(new.schema, k)
+		}
+	}
 	return new
 }
 
